@@ -36,11 +36,27 @@ pub fn scope_of(ctx: &Ctx) -> Scope {
     }
 }
 
-/// U_val ∪ U_size for one family
+/// U_val ∪ U_size ∪ U_field ∪ U_thresh for one family (U_field last; values already in U_val are not repeated)
 pub fn universe(fam: Family, ctx: &Ctx) -> (Vec<Ast>, usize) {
     let mut u = gen::u_val(fam, &scope_of(ctx));
     let nval = u.len();
     u.extend(gen::u_size(fam, FIELD_LENS, &size_targets(ctx)));
+    let nsize = u.len() - nval;
+    let (f, st) = mqtt_ref::genfield::u_field(fam, ctx.thorough());
+    let have: std::collections::HashSet<&Ast> = u[..nval].iter().collect();
+    let f: Vec<Ast> = f.into_iter().filter(|a| !have.contains(a)).collect();
+    let name = if fam == Family::V3 { "v3" } else { "v5" };
+    ctx.count_set(&format!("{name}_U_field"), f.len() as u64);
+    ctx.count_set(&format!("{name}_U_field_slots"), st.slots as u64);
+    ctx.count_set(&format!("{name}_U_field_each_slot"), st.each_slot as u64);
+    ctx.count_set(&format!("{name}_U_field_slot_pairs"), st.pairs as u64);
+    ctx.count_set(&format!("{name}_U_field_flag_code_products"), st.flag_products as u64);
+    ctx.count_set(&format!("{name}_U_field_dropped_by_reference_grammar"), st.dropped_by_grammar as u64);
+    let _ = nsize;
+    u.extend(f);
+    let t = mqtt_ref::genfield::u_thresh(fam);
+    ctx.count_set(&format!("{name}_U_thresh"), t.len() as u64);
+    u.extend(t);
     (u, nval)
 }
 
@@ -255,7 +271,7 @@ fn nontrivial(a: &Ast) -> bool {
 }
 
 pub fn c01(ctx: &Ctx) {
-    ctx.set_rule("U_val (all presence subsets, every atom of every field alone and with all others present, full products of the flag groups, user-property lists; thorough: all pairs) ∪ U_size (field lengths 0/1/127/128/16383/16384/65535, remaining lengths on every width boundary); each value: encode, blocking decode, async decode (always ready + all compositions for <= 10 bytes, else deviation-bounded cut sets, with and without Pending), poll decode with total and body; oracle = the crate's PartialEq against the original, header width from the reference varint; non-trivial = values with an optional field, property, code or list element present");
+    ctx.set_rule("U_val (all presence subsets, every atom of every field alone and with all others present, full products of the flag groups, user-property lists; thorough: all pairs) ∪ U_size (field lengths 0/1/127/128/16383/16384/65535, remaining lengths on every width boundary) ∪ U_field (every scalar / text / binary slot of a full packet of every type set to every atom of its kind: walking-one, walking-zero and single-byte bit patterns, special code points and look-alike strings, all-byte-value blobs; every flag combination and every reason code behind every single property; thorough: all slot pairs) ∪ U_thresh (every PUBLISH flag combination with payloads of 2^k-1, 2^k, 2^k+1 bytes for k = 5..16, and every bulk field of every packet type at those sizes inside a full packet); each value: encode, blocking decode, async decode (always ready + all compositions for <= 10 bytes, else deviation-bounded cut sets, with and without Pending), poll decode with total and body; oracle = the crate's PartialEq against the original, header width from the reference varint; non-trivial = values with an optional field, property, code or list element present");
     run_family::<V3>(ctx, "C01", &|c, a| c01_item::<V3>(c, a));
     run_family::<V5>(ctx, "C01", &|c, a| c01_item::<V5>(c, a));
     // the round trip must not depend on what the thread encoded or decoded before
@@ -438,7 +454,7 @@ fn c02_oversize(ctx: &Ctx) {
 }
 
 pub fn c02(ctx: &Ctx) {
-    ctx.set_rule("U_val ∪ U_size, every value and every separately encodable part of it (bodies, property sets, will, will properties, protocol): Packet::encode_len = bytes emitted, remaining-length field (reference varint reader) = bytes after it and minimal, part encode_len = bytes written into a Vec; identical encodings in both build profiles (digest compared by the driver); oversize packets (remaining length 2^28, shared 65,535-byte strings) must yield an error, not a panic and not bytes");
+    ctx.set_rule("U_val ∪ U_size ∪ U_field ∪ U_thresh, every value and every separately encodable part of it (bodies, property sets, will, will properties, protocol): Packet::encode_len = bytes emitted, remaining-length field (reference varint reader) = bytes after it and minimal, part encode_len = bytes written into a Vec; identical encodings in both build profiles (digest compared by the driver); oversize packets (remaining length 2^28, shared 65,535-byte strings) must yield an error, not a panic and not bytes");
     for fam in [Family::V3, Family::V5] {
         let (u, nval) = universe(fam, ctx);
         let digest = AtomicU64::new(0);
@@ -553,7 +569,7 @@ pub fn c10_item<F: Fam>(ctx: &Ctx, ast: &Ast, seen: &Mutex<Seen>) {
 }
 
 pub fn c10(ctx: &Ctx) {
-    ctx.set_rule("U_val ∪ U_size (v3.1, v3.1.1, v5.0): the emitted bytes go through the independent reference decoder (mqtt-ref::dec, written from the OASIS texts; binding to the crate's enums by variant name only); Accept with exactly the original field values is required; the run fails as a machinery error if some (packet type, property) or (packet type, reason code) entry of the specification tables was never exercised; non-trivial = values with optional content");
+    ctx.set_rule("U_val ∪ U_size ∪ U_field ∪ U_thresh (v3.1, v3.1.1, v5.0): the emitted bytes go through the independent reference decoder (mqtt-ref::dec, written from the OASIS texts; binding to the crate's enums by variant name only); Accept with exactly the original field values is required; the run fails as a machinery error if some (packet type, property) or (packet type, reason code) entry of the specification tables was never exercised; non-trivial = values with optional content");
     let mut missing: Vec<String> = Vec::new();
     for fam in [Family::V3, Family::V5] {
         let (u, _) = universe(fam, ctx);
@@ -768,7 +784,7 @@ fn common_prefix(a: &[u8], b: &[u8]) -> usize {
 }
 
 pub fn c09(ctx: &Ctx) {
-    ctx.set_rule("U_small ∪ U_size(<= 16384) under all sink schedules (all compositions of the output for <= 10 bytes with and without Pending at every boundary; else every cut set of <= 2 (thorough 3) cuts from the boundary positions), U_val under the always-ready sink; encode() twice, VarBytes contents, control byte ++ reference varint(body.encode_len()) ++ streamed body, body streamed into 1-byte sinks and sinks that answer Interrupted / a short write at call i; non-trivial = values with optional content");
+    ctx.set_rule("U_small ∪ U_size(<= 16384) under all sink schedules (all compositions of the output for <= 10 bytes with and without Pending at every boundary; else every cut set of <= 2 (thorough 3) cuts from the boundary positions), U_val ∪ U_field ∪ U_thresh under the always-ready sink; encode() twice, VarBytes contents, control byte ++ reference varint(body.encode_len()) ++ streamed body, body streamed into 1-byte sinks and sinks that answer Interrupted / a short write at call i; non-trivial = values with optional content");
     fn fam<F: Fam>(ctx: &Ctx) {
         let mut small = u_small(F::FAMILY);
         small.extend(gen::u_size(F::FAMILY, &[0, 1, 127, 128], &[127, 128, 16383, 16384]));
@@ -902,7 +918,7 @@ pub fn suffix_set(fam: Family) -> Vec<Vec<u8>> {
 }
 
 pub fn c07(ctx: &Ctx) {
-    ctx.set_rule("every value of U_val ∪ U_size and EVERY cut position 0..len of its encoding (boundary positions only for encodings > 600 bytes): blocking on the prefix, async and poll on a transport that ends there (whole and byte-wise for short ones) must report incomplete; U_small x {all 256 one-byte suffixes, B16^2, every U_tiny encoding, ff*8}: same packet, exact consumption; non-trivial = values with optional content");
+    ctx.set_rule("every value of U_val ∪ U_size ∪ U_field ∪ U_thresh and EVERY cut position 0..len of its encoding (boundary positions only for encodings > 600 bytes): blocking on the prefix, async and poll on a transport that ends there (whole and byte-wise for short ones) must report incomplete; U_small x {all 256 one-byte suffixes, B16^2, every U_tiny encoding, ff*8}: same packet, exact consumption; non-trivial = values with optional content");
     fn fam<F: Fam>(ctx: &Ctx) {
         let (u, _) = universe(F::FAMILY, ctx);
         for_items(&u, &|_, a| c07_item::<F>(ctx, a, None));
